@@ -21,6 +21,7 @@ const (
 	hvFill    // all keys of one ref set to val
 	hvCopy    // range copy from another version (memmove semantics)
 	hvIte
+	hvBelow // objects up to a watermark read from a, younger ones from b
 )
 
 type HV struct {
@@ -174,6 +175,15 @@ func (h *HV) Read(ref, key *Term) *Term {
 		}
 	case hvIte:
 		t = Ite(h.cond, h.a.Read(ref, key), h.b.Read(ref, key))
+	case hvBelow:
+		c := Le(ref, h.cond)
+		if c.IsTrue() {
+			t = h.a.Read(ref, key)
+		} else if c.IsFalse() {
+			t = h.b.Read(ref, key)
+		} else {
+			t = Ite(c, h.a.Read(ref, key), h.b.Read(ref, key))
+		}
 	}
 	h.memo[mk] = t
 	return t
@@ -226,6 +236,14 @@ func hvIteOf(c *Term, a, b *HV) *HV {
 	return n
 }
 
+// hvBelowOf: the version that agrees with a on every object that existed at
+// watermark wm and with b on the objects allocated since.
+func hvBelowOf(wm *Term, a, b *HV) *HV {
+	n := newHV(hvBelow, a)
+	n.cond, n.a, n.b = wm, a, b
+	return n
+}
+
 // LeafKey identifies one heap map.
 type LeafKey struct {
 	Type string // canonical object or element type
@@ -244,6 +262,13 @@ func (k LeafKey) String() string {
 type leafMeta struct {
 	sort    Sort
 	keySort Sort
+	// old: some write may have gone to an object that existed before the
+	// loop under discovery was entered (false: every write went to an object
+	// allocated by the loop body itself)
+	old bool
+	// cells: private cells of this function (allocated before the loop) that
+	// were store targets
+	cells map[int]*Term
 }
 
 // Heap is a persistent map from leaf keys to versions with a lazy fallback:
